@@ -69,3 +69,41 @@ Definition agree_pop_ids (tol : Q) (items : vocab) (v : variant) (counts : list 
   | VQuantile => quantile_ok_b (fun o q => close tol o q) counts obs
   | _ => all2 (agree_opt tol) (pop_train_ids items v counts) obs
   end.
+
+(* ---- item lists as the caller builds them ----
+   An ItemList is given by identifiers, or by numbers against a vocabulary of its own
+   (ItemList(item_nums=..., vocabulary=own)): candidates taken from another dataset / split / catalogue
+   slice, the same items in another order, a superset.  ItemList.numbers(vocabulary=target) goes through the
+   identifiers: ids = own[nums], then the number of each identifier in the target vocabulary.  Nothing looks
+   at the length of `own`, and a number is never carried over from one vocabulary to the other. *)
+Inductive ilist :=
+| ByIds (its : list ident)
+| ByNums (own : vocab) (nums : list nat).
+
+Definition via_own (own target : vocab) (k : nat) : option nat :=
+  match nth_error own k with Some x => number target x | None => None end.
+
+Definition ilist_numbers (target : vocab) (l : ilist) : list (option nat) :=
+  match l with
+  | ByIds its => map (number target) its
+  | ByNums own nums => map (via_own own target) nums
+  end.
+
+(* the identifiers a list stands for *)
+Definition denotes (l : ilist) (its : list ident) : Prop :=
+  match l with
+  | ByIds a => a = its
+  | ByNums own nums => Forall2 (fun n x => nth_error own n = Some x) nums its
+  end.
+
+(* PopScorer.__call__ / TimeBoundedPopScore.__call__ on an item list *)
+Definition pop_call_list (items : vocab) (item_scores : list (option Q)) (l : ilist) : list (option Q) :=
+  pop_call item_scores (ilist_numbers items l).
+
+(* BiasScorer.__call__ on item lists: the scored items and the rated history (list, ratings) *)
+Definition bias_scores_list (m : bmodel) (d : damp) (users items : vocab) (qu : option ident)
+    (hist : option (ilist * list Q)) (l : ilist) : list Q :=
+  bias_scores m d
+    {| q_user := match qu with Some x => number users x | None => None end;
+       q_hist := option_map (fun h => combine (ilist_numbers items (fst h)) (snd h)) hist |}
+    (ilist_numbers items l).
